@@ -10,6 +10,7 @@ import importlib.util
 import z3
 from api import obligation, opt_is_some, opt_payload
 from symex import IntV, BoolV, Agg, EnumV, OpaqueV, State
+from symex import ConstRef as symex_ConstRef
 import api as _api
 
 _saved = list(_api.REGISTRY)
@@ -187,3 +188,209 @@ def c15_m_serde_datetime_total(o):
     o.reachable("headroom_after_max", z3.And(y.e == c03.MAXY, d.e == 365, ts + off.e >= DAY))
     o.reachable("headroom_before_min", z3.And(y.e == c03.MINY, d.e == 1, ts + off.e < 0))
     o.claim("display_returns_ok", ok)
+
+
+# ---- C10 / C11: the FIELDS the RFC 3339 / RFC 2822 writers print, without the text ------------------------------------
+# The sink is abstracted, but every value handed to it is recorded together with the path condition of the call site
+# (`write_hundreds(w, n)`: n; the display argument of each fraction `write!`; the table entry handed to `write_str`).
+# The claims then say WHICH number is printed in which position -- the digit rendering of those numbers is Engine K's
+# part (c10_writer_*, c11_writer_*, c12_*).
+
+def recording_sink(o):
+    rec = {"hundreds": [], "display": [], "str": []}
+
+    def hundreds(ex, st, a):
+        n = a[1]
+        rec["hundreds"].append((st.pc, n.e))
+        return st, EnumV("Result", z3.If(n.e >= 100, 1, 0), {0: [Agg("tuple", "()", [])], 1: [Agg("struct", "fmt::Error", [])]})
+
+    def display(ex, st, a):
+        v = ex.load(st, a[0])
+        if isinstance(v, IntV):
+            rec["display"].append((st.pc, v.e, v.ty))
+        return st, OpaqueV("fmt argument")
+
+    def wstr(ex, st, a):
+        v = a[1]
+        if isinstance(v, (IntV,)):
+            rec["str"].append((st.pc, v.e))
+        return st, OKR()
+
+    o.summarize_raw(r"^write_hundreds::<impl Write>$", hundreds)
+    o.summarize_raw(r"^(core::fmt::rt::)?Argument::<'_>::new_display::<", display)
+    o.summarize_raw(r"<impl Write as (std::fmt::)?Write>::write_str$", wstr)
+    o.summarize_raw(r"<impl Write as (std::fmt::)?Write>::write_(char|fmt)$", lambda ex, st, a: (st, OKR()))
+    o.summarize_raw(r"^(std::fmt::|core::fmt::)?Arguments::<'_>::new(_const)?::<", lambda ex, st, a: (st, OpaqueV("fmt arguments")))
+    o.summarize_raw(r"^formatting::<impl OffsetFormat>::format::<impl Write>$", lambda ex, st, a: (st, OKR()))
+    return rec
+
+
+def fresh_contract(o, lo, hi, nm, store):
+    def f(ex, st, a):
+        v = ex.fresh(nm)
+        ex.side.append(z3.And(v >= lo, v <= hi))
+        store.append(v)
+        return st, IntV(v, "u32")
+    return f
+
+
+@obligation(prop="C10", tier="quick", timeout=900, probe="rfc3339_fields",
+            desc="RFC 3339 writer, the fields it prints (text abstracted): for every wall-clock date-time with year 0..=9999 the seven two-digit groups are year/100, year%100, month(), day(), hour, minute and second + 1 for a leap second (second 60), in that order; each fraction `write!` is handed exactly the fraction scaled to its unit (ms / us / ns, leap offset removed), and AutoSi picks the coarsest unit that loses nothing and prints no fraction exactly when it is zero",
+            bounds="all dates with year 0..=9999 x all times of day (leap incl.) x all offsets x {Secs, Millis, Micros, Nanos, AutoSi}; the sink is abstract (values handed to it are recorded); month()/day() are the accessor values (K:c01_* ties them to the calendar); the offset writer is abstracted (K:c10_writer_offset_part, c12_offset_*)",
+            outside="digit rendering of the recorded numbers (Engine K), years outside 0..=9999 (signed form), the reader")
+def c10_m_rfc3339_fields(o):
+    rec = recording_sink(o)
+    months, days = [], []
+    o.summarize_raw(r"^<NaiveDate as Datelike>::month$", fresh_contract(o, 1, 12, "month", months))
+    o.summarize_raw(r"^<NaiveDate as Datelike>::day$", fresh_contract(o, 1, 31, "day", days))
+    y, d, date = c03.date_input(o, "")
+    o.require(z3.And(y.e >= 0, y.e <= 9999))
+    t, ts, tf = c07.time_input(o, "")
+    off = o.input("off", "i32")
+    o.require(z3.And(off.e > -DAY, off.e < DAY))
+    sf = o.input("sf", "isize")
+    o.require(z3.And(sf.e >= 0, sf.e <= 4))
+    uzi = o.input("use_z", "u8")
+    o.require(uzi.e <= 1)
+    ndt = Agg("struct", "NaiveDateTime", [date, t])
+    r = o.call("format::formatting::write_rfc3339", OpaqueV("sink"), ndt, Agg("struct", "FixedOffset", [off]), EnumV("SecondsFormat", sf.e), BoolV(uzi.e == 1), name="write")
+    ok = r.disc == 0
+    o.flat = [z3.If(ok, 1, 0)]
+    o.no_panic()
+    H = rec["hundreds"]
+    if len(H) != 7 or len(months) != 1 or len(days) != 1:
+        raise _api.Unsupported(f"writer shape changed: {len(H)} write_hundreds call sites (7 expected)")
+    leap = tf >= G
+    nano = z3.If(leap, tf - G, tf)
+    want = [y.e / 100, y.e % 100, months[0], days[0], ts / 3600, ts / 60 % 60, ts % 60 + z3.If(leap, 1, 0)]
+    o.reachable("leap_second_whole", z3.And(tf == G, ts % 60 == 59))
+    o.claim("always_ok", ok)
+    o.claim("two_digit_groups_are_the_wall_clock_fields", z3.And(*[z3.And(pc, n == w) for (pc, n), w in zip(H, want)]))
+    D = [x for x in rec["display"] if x[2] == "u32"]
+    if len(D) != 6:
+        raise _api.Unsupported(f"writer shape changed: {len(D)} fraction write! sites (6 expected)")
+    # which unit a site prints is read off its value term (evaluated at a sample fraction), not off the site order
+    tfv = [v for (n_, t_, v) in o.inputs if n_ == "tf"][0]
+    unit = {}
+    for i, (pc, v, _) in enumerate(D):
+        sample = z3.simplify(z3.substitute(v, (tfv, z3.IntVal(123456789))))
+        if not z3.is_int_value(sample) or sample.as_long() not in (123, 123456, 123456789):
+            raise _api.Unsupported(f"fraction site {i}: value term is not a scaled fraction ({sample})")
+        unit[i] = {123: 1000000, 123456: 1000, 123456789: 1}[sample.as_long()]
+    A = {sc: z3.Or(*[D[i][0] for i in unit if unit[i] == sc]) for sc in (1000000, 1000, 1)}
+    digits = {1000000: 3, 1000: 6, 1: 9}
+    frac_val = z3.Sum(*[z3.If(D[i][0], D[i][1], 0) for i in unit])
+    frac_dig = z3.Sum(*[z3.If(D[i][0], digits[unit[i]], 0) for i in unit])
+    # observable output vector (the probe parses the same numbers out of the real text): ok, year pairs, clock groups,
+    # fraction value and digit count
+    o.flat = [z3.If(ok, 1, 0), H[0][1], H[1][1], H[4][1], H[5][1], H[6][1], frac_val, frac_dig]
+    o.claim("fraction_value_is_exact_in_its_unit", z3.And(*[z3.Implies(D[i][0], D[i][1] == nano / unit[i]) for i in unit]))
+    none = z3.Not(z3.Or(*A.values()))
+    only = lambda sc: z3.And(A[sc], *[z3.Not(A[x]) for x in A if x != sc])
+    o.claim("fixed_precisions_print_their_unit", z3.And(z3.Implies(sf.e == 0, none), z3.Implies(sf.e == 1, only(1000000)), z3.Implies(sf.e == 2, only(1000)), z3.Implies(sf.e == 3, only(1))))
+    o.claim("autosi_picks_the_coarsest_exact_unit", z3.Implies(sf.e == 4, z3.And(
+        A[1000000] == z3.And(nano != 0, nano % 1000000 == 0),
+        A[1000] == z3.And(nano % 1000000 != 0, nano % 1000 == 0),
+        A[1] == (nano % 1000 != 0))))
+
+
+@obligation(prop="C11", tier="quick", timeout=900, probe="rfc2822_writer_ok",
+            desc="RFC 2822 writer, the fields it prints (text abstracted): Err exactly for years outside 0..=9999; otherwise the weekday name is the entry for the date's weekday counted from Sunday (day number mod 7), the day is day() (one digit below 10), the month name is the entry month0(), then year/100, year%100, hour, minute and second + 1 for a leap second (second 60)",
+            bounds="all dates x all times of day (leap incl.) x all offsets; the sink is abstract (values handed to it are recorded); the name tables are replaced by index tables; weekday() through its contract (M:c01_m_weekday); day()/month0() are the accessor values; the offset writer is abstracted (K:c11_writer_time_part)",
+            outside="digit and name rendering (Engine K: c11_writer_*), the reader")
+def c11_m_rfc2822_fields(o):
+    rec = recording_sink(o)
+    days, m0s = [], []
+    o.summarize_raw(r"^<NaiveDate as Datelike>::day$", fresh_contract(o, 1, 31, "day", days))
+    o.summarize_raw(r"^<NaiveDate as Datelike>::month0$", fresh_contract(o, 0, 11, "month0", m0s))
+    o.summarize("naive::date::weekday", c03.sum_weekday)
+    table = lambda base, n: (lambda ex, st, a: (st, symex_ConstRef(Agg("array", "names", [IntV(base + i, "u32") for i in range(n)]))))
+    o.summarize_raw(r"(^|::)short_weekdays$", table(0, 7))
+    o.summarize_raw(r"(^|::)short_months$", table(100, 12))
+    o.summarize_raw(r"(^|::)default_locale$", lambda ex, st, a: (st, OpaqueV("locale")))
+    o.ex.const_overrides["unlocalized::Locale"] = OpaqueV("locale")
+    o.ex.const_overrides["Locale"] = OpaqueV("locale")
+    y, d, date = c03.date_input(o, "")
+    t, ts, tf = c07.time_input(o, "")
+    off = o.input("off", "i32")
+    o.require(z3.And(off.e > -DAY, off.e < DAY))
+    ndt = Agg("struct", "NaiveDateTime", [date, t])
+    r = o.call("format::formatting::write_rfc2822", OpaqueV("sink"), ndt, Agg("struct", "FixedOffset", [off]), name="write")
+    ok = r.disc == 0
+    o.flat = [z3.If(ok, 1, 0)]
+    o.no_panic()
+    H, S = rec["hundreds"], rec["str"]
+    if len(H) != 6 or len(S) != 2 or len(days) != 1 or len(m0s) != 1:
+        raise _api.Unsupported(f"writer shape changed: {len(H)} write_hundreds sites, {len(S)} table write_str sites")
+    leap = tf >= G
+    o.reachable("leap_second_whole", z3.And(tf == G, ts % 60 == 59, ok))
+    o.reachable("year_out_of_range", z3.Not(ok))
+    o.claim("ok_iff_year_0_to_9999", ok == z3.And(y.e >= 0, y.e <= 9999))
+    o.claim("weekday_and_month_names", z3.Implies(ok, z3.And(S[0][0], S[0][1] == c03.dayno(y.e, d.e) % 7, S[1][0], S[1][1] == 100 + m0s[0])))
+    o.claim("day_group", z3.Implies(ok, z3.And(H[0][0] == (days[0] >= 10), z3.Implies(H[0][0], H[0][1] == days[0]))))
+    want = [y.e / 100, y.e % 100, ts / 3600, ts / 60 % 60, ts % 60 + z3.If(leap, 1, 0)]
+    o.claim("two_digit_groups_are_the_wall_clock_fields", z3.Implies(ok, z3.And(*[z3.And(pc, n == w) for (pc, n), w in zip(H[1:], want)])))
+
+
+@obligation(prop="C12", tier="quick", timeout=600, probe="year_item", also=("C13",),
+            desc="%Y / %G and %C writers, the values they print (text abstracted): write_year takes its two-digit-pair fast path only for four-digit years (where padding cannot matter) and otherwise hands the year to the padded integer writer with width 4 and a sign that is mandatory exactly outside 0..=9999 (so that the reader can tell +10000 from 1000 followed by 0); write_century prints a digit pair for centuries 0..=99 and otherwise the plain integer (no forced sign)",
+            bounds="all i32 years / centuries x {None, Zero, Space}; the sink and the padded integer writer write_n are abstract (their arguments are recorded)",
+            outside="digit rendering (Engine K: c12_year, c12_year_small, c12_century)")
+def c12_m_year_items(o):
+    rec = recording_sink(o)
+    wn = []
+
+    def write_n(ex, st, a):
+        wn.append((st.pc, a[1].e, a[2].e, a[4].e))
+        return st, OKR()
+    o.summarize_raw(r"(^|::)write_n::<impl Write>$", write_n)
+    two = []
+    o.summarize_raw(r"(^|::)write_two::<impl Write>$", lambda ex, st, a: (two.append((st.pc, a[1].e)), (st, OKR()))[1])
+    y = o.input("year", "i32")
+    c = o.input("century", "i32")
+    pad = o.input("pad", "isize")
+    o.require(z3.And(pad.e >= 0, pad.e <= 2))
+    r = o.call("write_year", OpaqueV("sink"), y, EnumV("Pad", pad.e), name="year")
+    r2 = o.call("write_century", OpaqueV("sink"), c, EnumV("Pad", pad.e), name="century")
+    o.flat = [z3.If(r.disc == 0, 1, 0), z3.If(r2.disc == 0, 1, 0)]
+    o.no_panic()
+    H = rec["hundreds"]
+    if len(H) != 2 or len(wn) != 2 or len(two) != 1:
+        raise _api.Unsupported(f"writer shape changed: {len(H)} write_hundreds, {len(wn)} write_n, {len(two)} write_two sites")
+    small = z3.And(y.e >= 1000, y.e <= 9999)
+    o.reachable("year_10000", y.e == 10000)
+    o.claim("both_ok", z3.And(r.disc == 0, r2.disc == 0))
+    # the two-pair fast path may only be taken where it prints the same as the padded writer: years with four digits
+    o.claim("fast_path_only_for_four_digit_years", z3.And(z3.Implies(H[0][0], small), z3.Implies(H[0][0], z3.And(H[1][0], H[0][1] == y.e / 100, H[1][1] == y.e % 100))))
+    o.claim("other_years_padded_width_4_sign_iff_outside_0_9999", z3.And(z3.Or(H[0][0], wn[0][0]), z3.Implies(wn[0][0], z3.And(wn[0][1] == 4, wn[0][2] == y.e, wn[0][3] == z3.Or(y.e < 0, y.e > 9999)))))
+    cs = z3.And(c.e >= 0, c.e <= 99)
+    o.claim("century_pair_or_plain_integer", z3.And(two[0][0] == cs, z3.Implies(cs, two[0][1] == c.e), wn[1][0] == z3.Not(cs),
+                                                   z3.Implies(z3.Not(cs), z3.And(wn[1][1] == 2, wn[1][2] == c.e, z3.Not(wn[1][3])))))
+
+
+@obligation(prop="C09", tier="quick", timeout=600, probe="time_debug_ok",
+            desc="Debug / Display of NaiveTime (the default text form of times, also inside NaiveDateTime and DateTime), the values it prints (text abstracted): hour, minute and second + 1 for a leap second as digit pairs; no fraction exactly when it is zero, else the fraction without the leap offset in the coarsest of ms / us / ns that loses nothing -- which is what the FromStr side reads back as the same fraction",
+            bounds="all times of day incl. the leap representation on any second; the Formatter sink is abstract (values handed to it are recorded)",
+            outside="digit rendering (Engine K), the reader (K: c09_*, c13_items_hms)")
+def c09_m_time_debug_fields(o):
+    rec = recording_sink(o)
+    o.summarize_raw(r"^write_hundreds::<Formatter<'_>>$", [fn for rx, fn in o.ex.raw_summaries if "write_hundreds" in rx][0])
+    o.summarize_raw(r"Formatter(::)?<'_>(::| as std::fmt::Write>::| as Write>::)write_(char|str|fmt)$", lambda ex, st, a: (st, OKR()))
+    t, ts, tf = c07.time_input(o, "")
+    r = o.call("<NaiveTime as Debug>::fmt", o.ref(t), OpaqueV("formatter"), name="debug")
+    ok = r.disc == 0
+    o.flat = [z3.If(ok, 1, 0)]
+    o.no_panic()
+    H = rec["hundreds"]
+    D = [x for x in rec["display"] if x[2] == "u32"]
+    if len(H) != 3 or len(D) != 3:
+        raise _api.Unsupported(f"writer shape changed: {len(H)} write_hundreds sites, {len(D)} fraction sites")
+    leap = tf >= G
+    nano = z3.If(leap, tf - G, tf)
+    o.reachable("leap_with_microseconds", z3.And(leap, nano % 1000 == 0, nano % 1000000 != 0))
+    o.claim("always_ok", ok)
+    o.claim("clock_groups", z3.And(*[z3.And(pc, n == w) for (pc, n), w in zip(H, [ts / 3600, ts / 60 % 60, ts % 60 + z3.If(leap, 1, 0)])]))
+    o.claim("fraction_is_exact_and_coarsest", z3.And(
+        D[0][0] == z3.And(nano != 0, nano % 1000000 == 0), z3.Implies(D[0][0], D[0][1] * 1000000 == nano),
+        D[1][0] == z3.And(nano % 1000000 != 0, nano % 1000 == 0), z3.Implies(D[1][0], D[1][1] * 1000 == nano),
+        D[2][0] == (nano % 1000 != 0), z3.Implies(D[2][0], D[2][1] == nano)))
